@@ -41,10 +41,19 @@ pub fn gen_c09(rng: &mut Rng, _k: usize, _tier: &str) -> J {
         else { (match rng.below(2) { 0 => vec![], _ => vec!["city"] }, "users".into()) };   // only public-valued keys (city has a declared finite value set)
     let where_ = if rng.chance(1, 3) { if from_orders { " WHERE qty > 2" } else if joined { " WHERE users.age > 30" } else { " WHERE age > 30" } } else { "" };
     let mut items: Vec<String> = keys.iter().enumerate().map(|(i, c)| format!("{c} AS k{i}")).collect(); items.extend(aggs);
-    let sql = format!("SELECT {} FROM {from}{where_}{}", items.join(", "), if keys.is_empty() { String::new() } else { format!(" GROUP BY {}", keys.join(", ")) });
+    let mut sql = format!("SELECT {} FROM {from}{where_}{}", items.join(", "), if keys.is_empty() { String::new() } else { format!(" GROUP BY {}", keys.join(", ")) });
+    let mut nkeys = keys.len();
+    // joins of two protected tables on a key that is not the privacy unit (both reach the unit through foreign keys)
+    if rng.chance(1, 6) {
+        sql = rng.pick(&["SELECT count(*) AS a0, sum(i.price) AS a1, avg(i.price) AS a2 FROM items AS i JOIN orders AS o ON i.order_id = o.id",
+                         "SELECT sum(o.amount) AS a0, count(i.price) AS a1 FROM orders AS o JOIN items AS i ON o.id = i.order_id",
+                         "SELECT sum(i.price) AS a0 FROM items AS i JOIN orders AS o ON i.order_id = o.id WHERE o.qty > 2"]).to_string();
+        nkeys = 0;
+    }
     let max_orders = rng.range(0, 4);
-    json!({"sql": sql, "nkeys": keys.len(), "data_seed": rng.next() % 100000, "n_users": rng.range(3, 40), "max_orders": max_orders,
-           "mult": if rng.chance(1, 2) { 1000.0 } else { (max_orders.max(1)) as f64 },
+    json!({"sql": sql, "nkeys": nkeys, "data_seed": rng.next() % 100000, "n_users": rng.range(3, 40), "max_orders": max_orders,
+           // rows of one unit: at most max_orders orders, each with at most 2 items
+           "mult": if rng.chance(1, 2) { 1000.0 } else if sql.contains("items") { (2 * max_orders.max(1)) as f64 } else { (max_orders.max(1)) as f64 },
            "eps": *rng.pick(&[0.5, 1.0, 5.0]), "delta": *rng.pick(&[1e-3, 1e-6])})
 }
 
